@@ -11,13 +11,9 @@ import (
 
 // lockBlockExceptions: "holder function|lock" -> reason. The exception covers
 // blocking operations executed while that function holds that lock.
-// serialLocks are mutexes whose purpose is to serialise a whole operation;
-// bounded waits (class B: timer arm, class C: cancellation arm) are allowed
-// under them, bare waits (D, W) are not.
-var serialLocks = map[string]string{
-	"Client.l":             "Start/Client() are serialised under the client lock by design; their waits are bounded by StartTimeout and the exit context (R-BOUND decides that)",
-	"GRPCBroker.dialMutex": "exists to serialise knock+dial of multiplexed connections (R-MUXSER requires it); the waits under it have a 5 s timer or the broker's quit arm",
-}
+// Serialisation locks (see serialLockVars in roles.go): bounded waits (class
+// B: timer arm, class C: cancellation arm) are allowed under them, bare waits
+// (D, W) are not.
 
 // lockBlockExceptions: "lock|operation descriptor" -> reason.
 var lockBlockExceptions = map[string]string{
@@ -27,6 +23,7 @@ var lockBlockExceptions = map[string]string{
 func ruleLockBlock(c *Ctx) {
 	p := c.P
 	ci := p.Calls()
+	serial := p.serialLockVars()
 	for _, f := range p.Funcs {
 		li := p.Locks(f)
 		g := p.Graph(f)
@@ -81,7 +78,7 @@ func ruleLockBlock(c *Ctx) {
 					c.R.Except("R-LOCKBLOCK", cd.site, f.Name, construct, reason)
 					continue
 				}
-				if reason, ok := serialLocks[ln]; ok && (cd.class == "B" || cd.class == "C") {
+				if reason, ok := serial[v]; ok && (cd.class == "B" || cd.class == "C") {
 					c.R.Except("R-LOCKBLOCK", cd.site, f.Name, construct, "bounded wait under a serialisation lock: "+reason)
 					continue
 				}
